@@ -17,12 +17,15 @@
   * `signals_match_changes`   add/remove/update/store-remove signals are sent exactly for the corresponding changes
                               (or a refresh signal covers a wholesale change); `update_is_announced`
   * `never_crashes`           no KeyError/IndexError/ValueError is raised from inside the view
+  * `real_keys_total_preorder`, `view_sorted_by_generated_keys`   the four `generate` functions as code (`genKey`),
+                              Python's `<=` on their values is a total preorder, and the list is sorted by them
   * `sorted_list_is_stable_sort`, `refilter_is_stable_sort_of_store`, `set_order_is_stable_sort_of_view`,
     `view_is_sort_when_keys_distinct`   the refinement to "filter the store, then stable sort": exact after a re-filter
                               / re-order, and exact always when keys are pairwise different (ties otherwise keep the
                               order of insertion, which depends on the history)
 -/
 import MitmVerif.Lemmas.C43e
+import MitmVerif.Lemmas.C43f
 set_option linter.unusedSectionVars false
 set_option linter.unusedSimpArgs false
 set_option linter.unusedVariables false
@@ -384,6 +387,54 @@ theorem view_is_sort_when_keys_distinct (ops : List Op) (hcur : stale ops = [])
   unfold shown
   rw [heq]
 
+/-! ### the real sort keys -/
+
+/-- **the order on the real keys**: within one order all generated keys are of one kind (numbers for time and size,
+    strings for method and url), and on keys of one kind Python's `<=` (`SortKey.le`: numeric, resp. byte-wise
+    lexicographic on the UTF-8 encodings = by code point) is total, transitive and antisymmetric — so "sorted by the
+    selected order" is well defined for flows of every type. -/
+theorem real_keys_total_preorder (slot : Nat) (d1 d2 d3 : FlowData) :
+    (genKey slot d1).isNum = (genKey slot d2).isNum ∧
+    ((genKey slot d1).le (genKey slot d2) = true ∨ (genKey slot d2).le (genKey slot d1) = true) ∧
+    ((genKey slot d1).le (genKey slot d2) = true → (genKey slot d2).le (genKey slot d3) = true →
+      (genKey slot d1).le (genKey slot d3) = true) ∧
+    ((genKey slot d1).le (genKey slot d2) = true → (genKey slot d2).le (genKey slot d1) = true →
+      genKey slot d1 = genKey slot d2) := by
+  have hk : (genKey slot d1).isNum = (genKey slot d2).isNum := by rw [genKey_kind, genKey_kind]
+  exact ⟨hk, SortKey.le_total _ _ hk, SortKey.le_trans _ _ _, SortKey.le_antisymm _ _⟩
+
+/-- **sorted by the generated keys**: let `data f` be what the key generators read of flow `f`.  If the naturals
+    handed to the view model are an order-preserving image of the generated keys of the flows whose last change the
+    view has seen, then after any history those flows are listed in the order of their generated keys (`SortKey.le`,
+    i.e. Python's `<=` on `generate(f)`), descending when reversed. -/
+theorem view_sorted_by_generated_keys (ops : List Op) (data : Nat → FlowData)
+    (hrank : ∀ a b, a ∈ (run ops).view → b ∈ (run ops).view → a ∉ stale ops → b ∉ stale ops →
+      gen (run ops) a ≤ gen (run ops) b →
+      (genKey (run ops).slot (data a)).le (genKey (run ops).slot (data b)) = true) :
+    let s := run ops
+    let cur := (shown s).filter (fun g => decide (g ∉ stale ops))
+    if s.reversed then cur.Pairwise (fun a b => (genKey s.slot (data b)).le (genKey s.slot (data a)) = true)
+    else cur.Pairwise (fun a b => (genKey s.slot (data a)).le (genKey s.slot (data b)) = true) := by
+  intro s cur
+  have h : Good s (stale ops) := good_run ops
+  have hs := sorted_current h
+  have hs' : (s.view.filter (fun g => decide (g ∉ stale ops))).Pairwise
+      (fun a b => (genKey s.slot (data a)).le (genKey s.slot (data b)) = true) := by
+    apply List.Pairwise.imp_of_mem _ hs
+    intro a b ha hb hab
+    have ha' := List.mem_filter.mp ha
+    have hb' := List.mem_filter.mp hb
+    exact hrank a b ha'.1 hb'.1 (by simpa using ha'.2) (by simpa using hb'.2) hab
+  simp only [cur, shown]
+  cases hr : s.reversed with
+  | true =>
+    simp only [if_true]
+    rw [List.filter_reverse]
+    exact List.pairwise_reverse.mpr hs'
+  | false =>
+    simp only [Bool.false_eq_true, if_false]
+    exact hs'
+
 /-! ### the model is not vacuous: the two recorded defect scenarios, now correct -/
 
 private def aU : Attr := ⟨1, 0, 0, 10, false, [false]⟩      -- unmarked, size 10
@@ -404,6 +455,12 @@ example : (run [.setOrder 4, .add 0 aU, .add 1 aM, .focus 0, .mutate 0 aBig, .re
 example : (run [.setOrder 4, .add 0 aU, .add 1 aM, .focus 0, .mutate 0 aBig, .remove 0]).trace.contains (.vrm 0 0) = true := by decide
 example : stale [.add 0 aU, .mutate 0 aBig, .add 1 aM] = [0] := by decide
 example : stale [.add 0 aU, .mutate 0 aBig, .update 0 aBig] = [] := by decide
+/-- the key generators on flows of every type -/
+example : genKey 2 (.dns 0 7 none none) = .str [79, 80, 67, 79, 68, 69, 40, 55, 41] := by decide
+example : genKey 2 (.stream 0 false [] []) = .str [85, 68, 80] := by decide
+example : genKey 4 (.http 0 [] [] (some 3) (some (some 4))) = .num 7 ∧ genKey 4 (.http 0 [] [] none (some none)) = .num 0 := by decide
+example : (SortKey.str [71, 69, 84]).le (.str [73, 81, 85, 69, 82, 89]) = true ∧
+    (SortKey.str [98]).le (.str [97, 58, 56, 48]) = false := by decide
 /-- ties keep store order after a re-filter; an update that moves a key away and back re-inserts behind its equals -/
 private def aT : Attr := ⟨1, 0, 0, 10, false, [true]⟩
 private def aT2 : Attr := ⟨2, 0, 0, 10, false, [true]⟩
